@@ -22,5 +22,5 @@ if r.returncode == 0:
     for i in ids:
         r = subprocess.run(['/verif/bin/grogcheck', 'check', i, '-repo', scratch, '-verif', scratch + '_verif'], env=env, capture_output=True, text=True)
         out = [l for l in r.stdout.splitlines() if 'violated' in l or 'undecided' in l or 'VIOLATION' in l or 'incomplete' in l]
-        print(i, 'exit', r.returncode); print('\n'.join(out[:12]))
+        print(i, 'exit', r.returncode); print('\n'.join(l[:260] for l in out[:12]))
 shutil.rmtree(scratch); shutil.rmtree(scratch + '_verif')
